@@ -2273,6 +2273,32 @@ class AliasAssignFF(Base):
       s.o @= s.r0 ^ s.rs[0]
 
 
+def _par(x): return bin(x).count("1") & 1
+
+
+@design(lambda st, a, b, sel, en, reset: (None, {"o": _par(a), "p": (a + 1 + b) & M8, "q": a}))
+class AliasAugRebind(Base):
+  """acc = s.a[0]; acc ^= s.a[i] / t = s.a; t += 1: an arithmetic augmented assignment computes a new value and gives it the local
+  name; it does not write the signal the name stood for (only @= and <<= do)"""
+  def construct(s):
+    s.ports()
+    s.o = OutPort(Bits1)
+    s.p = OutPort(Bits8)
+    s.q = OutPort(Bits8)
+
+    @update
+    def up_aar():
+      acc = s.a[0]
+      for i in range(1, 8):
+        acc ^= s.a[i]
+      s.o @= acc
+      t = s.a
+      t += 1
+      t += s.b
+      s.p @= t
+      s.q @= s.a
+
+
 def sequences():
   """input sequences (lists of dicts): one long deterministic walk covering every (sel, en) with varied a, b; reset pulses inside"""
   A = (0, 1, 0x5A, 0xFF, 0x80, 0x0F, 0x37)
